@@ -4,7 +4,7 @@
     [full_list m] is the menu's candidate vector after fetching everything. *)
 From Coq Require Import List Arith NArith Bool.
 From RimeV Require Import MenuM.Gen MenuM.Menu MenuM.Spec MenuM.GenProofs MenuM.MenuProofs
-  MenuM.UniqProofs MenuM.WfProofs MenuM.SpecProofs MenuM.Examples MenuM.ConstsProofs Gen.MenuConsts.
+  MenuM.UniqProofs MenuM.WfProofs MenuM.SpecProofs MenuM.StackProofs MenuM.Examples MenuM.ConstsProofs Gen.MenuConsts.
 Import ListNotations.
 
 (** Fetching more candidates only appends: what was shown at an index stays
@@ -119,13 +119,30 @@ Theorem C04_cangjie5_chain_no_dup : forall ts simp,
 Proof. intros ts f. exact (uniq_single_no_dup ts [FSimplifier f]). Qed.
 Print Assumptions C04_cangjie5_chain_no_dup.
 
-(** The general claim (any chain of the modelled filters that contains the
-    uniquifier) is kept as a statement only: it is proved above for the two
-    orders that occur in the stock schemas ([...; uniquifier] and
-    [...; uniquifier; single_char_filter]); an arbitrary tail of filters after
-    the uniquifier (charset filter after it, several prefetchers) is not proved. *)
-Definition C04_uniq_anywhere_full : Prop :=
-  forall ts fs, In FUniquifier fs -> NoDup (texts (full_list (build_menu ts fs))).
+(** The general claim: in ANY chain with a uniquifier after which no filter
+    creates new texts (the later filters may hold candidates back, reorder or
+    drop them: single_char_filter, charset filter, further uniquifiers) the full
+    list has no two entries with the same text.  Any filters – simplifiers
+    included – may come before; any menu the constructors can build. *)
+Theorem C04_uniq_anywhere : forall specs fs1 fs2,
+  Forall no_new_text fs2 ->
+  NoDup (texts (full_list (menu_of specs (fs1 ++ FUniquifier :: fs2)))).
+Proof. exact uniq_anywhere_spec. Qed.
+Print Assumptions C04_uniq_anywhere.
+
+(** the same over arbitrary well-formed translation states *)
+Theorem C04_uniq_anywhere_wf : forall ts fs1 fs2,
+  forallb wf ts = true -> Forall no_new_text fs2 ->
+  NoDup (texts (full_list (build_menu ts (fs1 ++ FUniquifier :: fs2)))).
+Proof. exact uniq_anywhere. Qed.
+Print Assumptions C04_uniq_anywhere_wf.
+
+(** The condition on the later filters is needed: a simplifier placed after the
+    uniquifier maps two distinct texts to one (no stock schema has this order). *)
+Theorem C04_uniq_before_simplifier_refuted :
+  exists specs conv, ~ NoDup (texts (full_list (menu_of specs [FUniquifier; FSimplifier conv]))).
+Proof. exact uniq_before_simplifier_refuted. Qed.
+Print Assumptions C04_uniq_before_simplifier_refuted.
 
 (** The charset filter of the model tests exactly the code-point ranges that
     is_extended_cjk() of the current src/rime/gear/charset_filter.cc tests
